@@ -19,6 +19,7 @@ import (
 	"fmt"
 	"io"
 	"os"
+	"os/exec"
 	"path/filepath"
 	"runtime"
 	"sort"
@@ -370,6 +371,17 @@ func engineC04Body(c *vctx) error {
 
 // ---- concurrency family: are the draws linearisable? ----
 
+// helper engine run in child processes: writes 256 nonces and the four 16-byte quarters of a salt
+var _ = verifRegister("C04draws", func(c *vctx) error {
+	var out []byte
+	for i := 0; i < 256; i++ {
+		out = append(out, crypto.NewRandomNonce()...)
+	}
+	salt, _ := crypto.NewSalt()
+	out = append(out, salt...)
+	return os.WriteFile(filepath.Join(c.dir, "draws.bin"), out, 0o600)
+})
+
 type c04Nonce [16]byte
 
 // c04Dups sorts the collected nonces and returns the number of distinct values and up to 8 repeated ones.
@@ -410,6 +422,43 @@ func c04Concurrency(c *vctx) error {
 	c.Case("concurrent-draws", true, len(all), c04ConcTerm(len(all), len(all), distinct, dups),
 		fmt.Sprintf("crypto.NewRandomNonce from %d goroutines: %d draws, %d distinct", workers, len(all), distinct))
 	all = nil
+
+	// (a') separate processes started at the same moment must not repeat each other's draws (a generator
+	// seeded from the clock, the pid or a constant would): the harness binary is re-executed three times
+	{
+		const procs, each = 3, 256
+		cmds := make([]*exec.Cmd, procs)
+		dirs := make([]string, procs)
+		for i := range cmds {
+			dirs[i] = filepath.Join(c.dir, fmt.Sprintf("child-%d", i))
+			cmds[i] = exec.Command(os.Args[0], "C04draws", "quick", "1", dirs[i])
+			cmds[i].Env = append(os.Environ(), "RESTIC_VERIF=1")
+		}
+		for _, cmd := range cmds {
+			if err := cmd.Start(); err != nil {
+				return fmt.Errorf("start child: %w", err)
+			}
+		}
+		var got []c04Nonce
+		for i, cmd := range cmds {
+			if err := cmd.Wait(); err != nil {
+				return fmt.Errorf("child %d: %w", i, err)
+			}
+			raw, err := os.ReadFile(filepath.Join(dirs[i], "draws.bin"))
+			if err != nil {
+				return err
+			}
+			for j := 0; j+16 <= len(raw); j += 16 {
+				var n c04Nonce
+				copy(n[:], raw[j:j+16])
+				got = append(got, n)
+			}
+		}
+		collected := len(got)
+		distinct, dups := c04Dups(got)
+		c.Case("cross-process-draws", true, collected, c04ConcTerm(procs*each, collected, distinct, dups),
+			fmt.Sprintf("%d processes started together, %d NewRandomNonce draws each (+ salts): %d values, %d distinct", procs, each, collected, distinct))
+	}
 
 	// (b) many concurrent blob savers on an in-memory repository; every stored nonce is collected
 	rounds := c.n(2, 6)
